@@ -16,13 +16,23 @@ func linConst(c int64) Lin { return Lin{C: c, T: map[string]int64{}} }
 // intermediates: integer phis M of fn with M ≤ bound proven on all their cases.
 func boundedPhis(fn *ssa.Function, bound Lin) []ssa.Value {
 	var out []ssa.Value
-	for _, b := range fn.Blocks {
-		for _, in := range b.Instrs {
-			if ph, ok := in.(*ssa.Phi); ok && isInteger(ph.Type()) {
-				if ok, _ := proveLE(ph, bound, ph.Block()); ok {
-					out = append(out, ph)
-				}
+	for _, in := range instrsOf(fn) {
+		v, ok := in.(ssa.Value)
+		if !ok || !isInteger(v.Type()) {
+			continue
+		}
+		switch x := v.(type) {
+		case *ssa.Phi:
+		case *ssa.Call:
+			b, isB := x.Call.Value.(*ssa.Builtin)
+			if !isB || (b.Name() != "min" && b.Name() != "max") {
+				continue
 			}
+		default:
+			continue
+		}
+		if ok, _ := proveLE(v, bound, in.Block()); ok {
+			out = append(out, v)
 		}
 	}
 	return out
